@@ -139,6 +139,7 @@ class C07(Check):
         # failed write midway, then success, then flush
         yield {"init": dict(base), "donors": [], "ops": [["write", 1], ["bad", 1], ["write", 0], ["flush"]]}
         yield {"init": dict(base), "donors": [], "ops": [["bad", 2], ["flush"], ["write", 0], ["flush"]]}
+        yield {"init": dict(base), "donors": [], "ops": [["write", 0], ["bad", 4], ["write", 0], ["flush"], ["bad", 4], ["bad", 1], ["write", 1], ["flush"]]}
         yield {"init": dict(base, codec="deflate", stream="file"), "donors": [], "ops": [["flush"], ["reopen", {"schema": "none", "codec": "null", "marker": None, "metadata": None, "validator": False, "sync_interval": 1}], ["write", 1], ["flush"],
                                                                                      ["reopen_fn", {"schema": "different", "codec": "xz", "marker": b"\x09" * 16, "metadata": {"late": "meta"}, "validator": True, "sync_interval": 50}, [0, 2]]]}
         yield {"init": dict(base, family="empty", sync_interval=1), "donors": [{"codec": "bzip2", "records": [{}, {}], "interval": 1, "by": "ref", "empty_block": True}],
@@ -259,6 +260,16 @@ class C07(Check):
                 )
             if total != len(model):
                 raise Violation("history-block-counts", f"blocks announce {total} records, model has {len(model)}; {ctx}")
+            # every block is exactly its records: a failed write must not leave bytes behind, not even unread ones
+            for bi, b in enumerate(pf["blocks"]):
+                pos = 0
+                try:
+                    for _ in range(b["count"]):
+                        _, pos = B.decode(node, table, b["data"], pos)
+                except B.RefError as e:
+                    raise Violation("history-block-undecodable", f"independent decoder fails inside block #{bi}: {e}; {ctx}")
+                if pos != len(b["data"]):
+                    raise Violation("history-block-stale-bytes", f"block #{bi} announces {b['count']} records which take {pos} bytes, but its payload has {len(b['data'])}: {b['data'][pos:pos + 24].hex()}...; {ctx}")
 
         for op in case["ops"]:
             kind = op[0]
